@@ -66,6 +66,8 @@ def api_case(draw, sub="api"):
             "reads1": reads1, "reads2": reads2}
     if sub == "cli":
         case["cores"] = draw(st.sampled_from([1, 1, 2, 3]))
+        # later stages work on the chosen orientation: poly-A trimming and -l are direction-sensitive
+        case["later"] = draw(st.sampled_from([None, None, "poly_a", "length"]))
         case["rename"] = draw(st.sampled_from([None, None, "{id} rc={rc} an={adapter_name}"])) if not paired else \
             draw(st.sampled_from([None, None, "{id} an={r1.adapter_name},{r2.adapter_name}"]))
     return case
@@ -179,6 +181,12 @@ def check_cli(case, ctx):
     o = {"times": times, "action": action, "revcomp": True}
     if case.get("rename"):
         o["rename"] = case["rename"]
+    if case.get("later") == "poly_a":
+        o["poly_a"] = True
+        ctx.label("later-stage:poly-a")
+    elif case.get("later") == "length":
+        o["length1"] = -6
+        ctx.label("later-stage:length")
     cores = case.get("cores", 1)
     reps = 1 if cores == 1 else 5  # several chunks, so that every worker flags some reads
     rs1 = list(case["reads1"]) * reps
